@@ -1,15 +1,19 @@
 (** C17 - "validate always terminates with a verdict": literal models of the
     code fragments the property's anchors name.  Definitions only.
 
-    1. validate_version_nums            src/ocfl/validate/serde.rs:1321-1391 (after commits 719e6a5, f842f41)
+    (line numbers of /repo at commit 389bfd0)
+    1. validate_version_nums            src/ocfl/validate/serde.rs:1321-1322, 1338-1405 (after commits 719e6a5, f842f41)
     2. InventoryVisitor::visit_map      src/ocfl/validate/serde.rs:152-517 (field loop, final guards,
        Inventory::new(..).unwrap(); blank id after commit b116ae5) and Inventory::new, src/ocfl/inventory.rs:95-131
-    3. the cross-inventory checks       src/ocfl/validate/mod.rs:607-641, 1534-1707
-       (get_version(..).unwrap(), content_paths(..).unwrap(), PrettyPrintSet types.rs:1350-1362)
-    4. validate_non_conflicting         src/ocfl/validate/serde.rs:1473-1487 (cost)
-    5. ContentPathsIter::next           src/ocfl/validate/mod.rs:2106-2127
-    6. IncrementalValidatorImpl::next   src/ocfl/validate/mod.rs:1923-2022
-    7. Display for VersionNum           src/ocfl/types.rs:396-406 (after commit d5a9e2d) *)
+    3. the cross-inventory checks       src/ocfl/validate/mod.rs:607-641, 1534-1711
+       (get_version(..).unwrap(); content_paths(..).unwrap_or(&no_paths) after commit 7c90d82;
+       PrettyPrintSet types.rs:1350-1362 with saturating_sub after commit 547c92e)
+    4. validate_non_conflicting         src/ocfl/validate/serde.rs:1487-1501 (cost)
+    5. ContentPathsIter::next           src/ocfl/validate/mod.rs:2110-2131
+    6. IncrementalValidatorImpl::next   src/ocfl/validate/mod.rs:1927-2026
+    7. Display for VersionNum           src/ocfl/types.rs:396-406 (after commit d5a9e2d)
+    8. is_uri                           src/ocfl/validate/serde.rs:1324-1336 (commit 389bfd0), the guard in front of
+       uriparse's URI::try_from at its two call sites serde.rs:191 ("id") and serde.rs:1220 (user "address") *)
 From Rocfl Require Export Base.Bytes Model.VersionNum.
 From Rocfl Require Import Generated.Consts.
 Open Scope N_scope.
@@ -34,7 +38,7 @@ Definition c0 : vcost := mkC 0 0.
 (** The constructor [Err] stands for "fuel exhausted" in the results of this section
     (a Rust-level [Err] is either unwrapped => [Panic], or handled by [break]). *)
 
-(** serde.rs:1359-1365, the inner loop (entered for small gaps only)
+(** serde.rs:1373-1379, the inner loop (entered for small gaps only)
       while next_version < *version {
           result.error(E010, ..);                       <- errors + 1
           next_version = next_version.next().unwrap();
@@ -51,7 +55,7 @@ Fixpoint gap_loop (dbg : bool) (fuel : nat) (next : vnum) (target : N) (c : vcos
     end
   else Ok (next, c).
 
-(** serde.rs:1339-1367, the [if next_version < *version] statement.
+(** serde.rs:1353-1381, the [if next_version < *version] statement.
     [version.number - next_version.number] and [version.number - 1] cannot underflow under the
     guard; the two numbers of the range message are printed with next_version's width. *)
 Definition gap_stmt (dbg : bool) (fuel : nat) (next v : vnum) (c : vcost) : res (vnum * vcost) :=
@@ -61,7 +65,7 @@ Definition gap_stmt (dbg : bool) (fuel : nat) (next v : vnum) (c : vcost) : res 
     else gap_loop dbg fuel next (vn_number v) c
   else Ok (next, c).
 
-(** serde.rs:1329-1374, the [for version in version_nums] loop; [vs] is the iteration order
+(** serde.rs:1343-1388, the [for version in version_nums] loop; [vs] is the iteration order
     of the BTreeSet *)
 Fixpoint vnums_go (dbg : bool) (fuel : nat) (vs : list vnum) (next : vnum) (c : vcost) : res vcost :=
   match vs with
@@ -69,7 +73,7 @@ Fixpoint vnums_go (dbg : bool) (fuel : nat) (vs : list vnum) (next : vnum) (c : 
   | v :: rest =>
       match gap_stmt dbg fuel next v (mkC (c_errors c) (c_iters c + 1)) with
       | Ok (next', c') =>
-          match vnext dbg next' with             (* serde.rs:1369-1373 (commit f842f41) *)
+          match vnext dbg next' with             (* serde.rs:1383-1387 (commit f842f41) *)
           | Ok next'' => vnums_go dbg fuel rest next'' c'         (* Ok(next) => next *)
           | Err => Ok c'                                          (* Err(_) => break *)
           | Panic => Panic
@@ -85,7 +89,7 @@ Definition vn_v1 : vnum := mkV 1 0.                            (* VersionNum::v1
 Definition validate_version_nums (dbg : bool) (vs : list vnum) : res vcost :=
   vnums_go dbg (N.to_nat MAX_LISTED) vs vn_v1 c0.
 
-(** serde.rs:1330-1337, 1376-1390: (E013 inconsistent padding, W001 zero padded) *)
+(** serde.rs:1344-1351, 1390-1404: (E013 inconsistent padding, W001 zero padded) *)
 Definition vnums_padding (vs : list vnum) : bool * bool :=
   match vs with
   | [] => (false, false)
@@ -254,8 +258,9 @@ Definition step (st : pst) (it : item) : pst + errs :=
       if p_id st then inl (add E033 st)                                 (* duplicate_field *)
       else match v with
            | SStr s =>                                                   (* serde.rs:184-201 *)
-               (* [if value.is_empty() { E037 "must not be blank" } else if URI::try_from(value).is_err() { W005 }]
-                  (URI::try_from: section 8), then [id = Some(value)] in either case *)
+               (* [if value.is_empty() { E037 "must not be blank" } else if !is_uri(value) { W005 }]
+                  ([is_uri]: section 8, total since commit 389bfd0 - C17_is_uri_total; warnings are not
+                  part of [pst]), then [id = Some(value)] in either case *)
                inl (mkP (Some s) (p_type st) (p_alg st) (p_head st) (p_cdir st) (p_manifest st)
                         (p_versions st) (p_fixity st) (f_digest st) (f_head st) (f_manifest st)
                         (f_versions st)
@@ -442,12 +447,18 @@ Definition lookup {A} (k : N) (l : list (N * A)) : option A :=
 Definition get_version (inv : ainv) (n : N) : option astate := lookup n (i_versions inv).
 
 (** Inventory::content_paths = PathBiMap::get_paths (inventory.rs:279, bimap.rs:105): the bimap
-    was filled by insert_multiple_rc (bimap.rs:88-102) which ignores an empty array *)
+    was filled by insert_multiple_rc (bimap.rs:88-102) which ignores an empty array, so a manifest
+    entry ["digest": []] has no entry here *)
 Definition content_paths (inv : ainv) (d : N) : option (list (N * N)) :=
   match lookup d (i_manifest inv) with
   | Some ps => if is_nil ps then None else Some ps
   | None => None
   end.
+
+(** mod.rs:1657-1661 (commit 7c90d82): [let no_paths = HashSet::new(); ... .unwrap_or(&no_paths)] -
+    a missing entry is compared as the empty set *)
+Definition paths_or_empty (o : option (list (N * N))) : list (N * N) :=
+  match o with Some ps => ps | None => [] end.
 
 Definition pair_eqb (x y : N * N) : bool := (fst x =? fst y) && (snd x =? snd y).
 Definition subset (x y : list (N * N)) : bool := forallb (fun e => existsb (pair_eqb e) y) x.
@@ -456,11 +467,55 @@ Definition set_eqb (x y : list (N * N)) : bool := subset x y && subset y x.
 Inductive psite := SGetVersion | SContentPaths | SPrettyPrint.
 Inductive xres := XOk (errors : N) | XPanic (s : psite) | XFuel.
 
-(** Display for PrettyPrintSet, types.rs:1350-1361: [let max = self.0.len() - 1] on usize:
-    overflow check in a debug build; a release build wraps and the loop body never runs *)
-Definition pps_panics (dbg : bool) (len : N) : bool := dbg && (len =? 0).
+(** usize arithmetic.  [a - b]: overflow check in a debug build, wrap-around in a release build;
+    [a.saturating_sub(b)]: 0 when b > a, in both build modes (N subtraction is truncated at 0) *)
+Definition USIZE_MOD : N := 18446744073709551616.
+Definition usize_sub (dbg : bool) (a c : N) : res N :=
+  if a <? c then (if dbg then Panic else Ok (a + USIZE_MOD - c)) else Ok (a - c).
+Definition usize_saturating_sub (a c : N) : res N := Ok (a - c).
 
-(** body of the [for (comparing_path, comparing_digest)] loop, mod.rs:1629-1695 *)
+(** Display for PrettyPrintSet, types.rs:1350-1362 (commit 547c92e):
+      f.write_char('[')?;
+      let max = self.0.len().saturating_sub(1);
+      for (i, entry) in self.0.iter().enumerate() { write!(f, "{}", entry)?; if i < max { write!(f, ", ")?; } }
+      f.write_char(']')
+    [pps_display dbg len] = the number of separators written for a set of [len] elements (the
+    indices i < len with i < max), or [Panic] *)
+Definition pps_max (dbg : bool) (len : N) : res N := usize_saturating_sub len 1.        (* types.rs:1353 *)
+Definition pps_display (dbg : bool) (len : N) : res N :=
+  match pps_max dbg len with
+  | Ok max => Ok (N.min len max)
+  | Err => Err
+  | Panic => Panic
+  end.
+Definition pps_panics (dbg : bool) (len : N) : bool :=
+  match pps_display dbg len with Panic => true | _ => false end.
+
+(** historical, NOT the current code: before 547c92e the line read [let max = self.0.len() - 1] *)
+Definition pps_max_before_fix (dbg : bool) (len : N) : res N := usize_sub dbg len 1.
+Definition pps_display_before_fix (dbg : bool) (len : N) : res N :=
+  match pps_max_before_fix dbg len with
+  | Ok max => Ok (N.min len max)
+  | Err => Err
+  | Panic => Panic
+  end.
+Definition pps_panics_before_fix (dbg : bool) (len : N) : bool :=
+  match pps_display_before_fix dbg len with Panic => true | _ => false end.
+
+(** the comparison of the two sets of content paths, mod.rs:1663-1697; [pp] = does printing a
+    set of that many elements panic (both sets are printed in the E066 message) *)
+Definition compare_paths (pp : N -> bool) (cur : N) (cps ps : list (N * N)) : xres :=
+  if nlen cps =? 1 then
+    if set_eqb cps ps then XOk 0
+    else if pp (nlen cps) || pp (nlen ps) then XPanic SPrettyPrint
+    else XOk 1
+  else
+    let f := filter (fun cp => fst cp <=? cur) cps in                  (* mod.rs:1677-1685 *)
+    if set_eqb f ps then XOk 0
+    else if pp (nlen f) || pp (nlen ps) then XPanic SPrettyPrint
+    else XOk 1.
+
+(** body of the [for (comparing_path, comparing_digest)] loop, mod.rs:1629-1699 *)
 Definition entry_check (dbg : bool) (cur : N) (cmp inv : ainv) (st : astate) (compare_digests : bool)
            (e : N * N) : xres :=
   let '(p, cd) := e in
@@ -469,17 +524,23 @@ Definition entry_check (dbg : bool) (cur : N) (cmp inv : ainv) (st : astate) (co
   | Some d =>
       if compare_digests then XOk (if cd =? d then 0 else 1)
       else
-        match content_paths cmp cd, content_paths inv d with           (* mod.rs:1655-1657 *)
-        | Some cps, Some ps =>
-            if nlen cps =? 1 then
-              if set_eqb cps ps then XOk 0
-              else if pps_panics dbg (nlen cps) || pps_panics dbg (nlen ps) then XPanic SPrettyPrint
-              else XOk 1
-            else
-              let f := filter (fun cp => fst cp <=? cur) cps in        (* mod.rs:1673-1679 *)
-              if set_eqb f ps then XOk 0
-              else if pps_panics dbg (nlen f) || pps_panics dbg (nlen ps) then XPanic SPrettyPrint
-              else XOk 1
+        compare_paths (pps_panics dbg) cur
+          (paths_or_empty (content_paths cmp cd))                      (* mod.rs:1658-1660 *)
+          (paths_or_empty (content_paths inv d))                       (* mod.rs:1661 *)
+  end.
+
+(** historical, NOT the current code: the same loop body before the commits 7c90d82
+    ([content_paths(..).unwrap()] twice) and 547c92e *)
+Definition entry_check_before_fix (dbg : bool) (cur : N) (cmp inv : ainv) (st : astate) (compare_digests : bool)
+           (e : N * N) : xres :=
+  let '(p, cd) := e in
+  match lookup p st with
+  | None => XOk 1
+  | Some d =>
+      if compare_digests then XOk (if cd =? d then 0 else 1)
+      else
+        match content_paths cmp cd, content_paths inv d with
+        | Some cps, Some ps => compare_paths (pps_panics_before_fix dbg) cur cps ps
         | _, _ => XPanic SContentPaths
         end
   end.
@@ -495,7 +556,7 @@ Fixpoint entries_check (dbg : bool) (cur : N) (cmp inv : ainv) (st : astate) (cd
       end
   end.
 
-(** validate_state_consistent, mod.rs:1615-1707 *)
+(** validate_state_consistent, mod.rs:1615-1711 *)
 Definition state_consistent (dbg : bool) (cur : N) (cmp inv : ainv) (compare_digests : bool) : xres :=
   match get_version cmp cur, get_version inv cur with                  (* mod.rs:1624-1625 *)
   | Some cst, Some st =>
@@ -565,7 +626,7 @@ Definition head_rejected_count (found : list (N * ainv)) : N :=
 (* ------------------------------------------------------------------ *)
 (** * 4. validate_non_conflicting (cost) *)
 
-(** serde.rs:1478-1486, for one path:
+(** serde.rs:1492-1500, for one path:
       while let Some(index) = part.rfind('/') { part = &part[0..index]; if paths.contains(part) {..break} }
     every [contains] hashes the prefix: cost = sum of the prefix lengths (no conflict: no break).
     [slash_prefix_cost pos s] : s is the rest of the path, pos the index of its first character *)
@@ -583,7 +644,7 @@ Fixpoint rep_seg (n : nat) : bytes :=         (** "a/a/a/.../" n times "a/" *)
 (* ------------------------------------------------------------------ *)
 (** * 5. ContentPathsIter::next *)
 
-(** mod.rs:2113-2122: [while self.current_version != VersionNum::v1()] with
+(** mod.rs:2117-2126: [while self.current_version != VersionNum::v1()] with
     [previous().unwrap()]; [eq] is the equality used for [!=]; [has n] = path_map has paths for n.
     Result: the version whose paths are iterated next, or None at v1.  [Err] = fuel exhausted. *)
 Fixpoint cpi_walk (eq : vnum -> vnum -> bool) (dbg : bool) (fuel : nat) (cur : vnum) (has : N -> bool)
@@ -608,7 +669,7 @@ Inductive tree :=
 | TObj (ok : bool)          (** a directory holding an object declaration; validate_object gives Ok / Err *)
 | TDir (children : list tree)
 | TBadDir                   (** storage.list fails *)
-| TLeaf.                    (** a file, a link, or the storage root's own "extensions" directory (mod.rs:1944-1949) *)
+| TLeaf.                    (** a file, a link, or the storage root's own "extensions" directory (mod.rs:1948-1953) *)
 
 (** one element of the iteration *)
 Inductive vitem := VResult (ok : bool) | VListErr.
@@ -664,22 +725,57 @@ Definition vdisplay_writes (v : vnum) : N :=            (** calls of write_str *
   2 + (vn_width v - blen (dec_digits (vn_number v))).
 
 (* ------------------------------------------------------------------ *)
-(** * 8. URI::try_from of uriparse 0.6.4 (third-party), called for "id" (serde.rs:191) and user "address" (serde.rs:1220) *)
+(** * 8. is_uri (serde.rs:1324-1336, commit 389bfd0) in front of URI::try_from of uriparse 0.6.4 (third-party) *)
 
-(** uri.rs:913-916 [URIReference::try_from(value).map_err(|e| URIError::try_from(e).unwrap())]: the
-    conversion has no image for SchemelessPathStartsWithColonSegment (uri.rs:1535-1552), raised by
+(** The parser's own defect.  uri.rs:913-916 [URIReference::try_from(value).map_err(|e| URIError::try_from(e).unwrap())]:
+    the conversion has no image for SchemelessPathStartsWithColonSegment (uri.rs:1535-1552), raised by
     validate_schemeless_path (uri_reference.rs:1764-1782) when there is no scheme, no authority and
-    the first path segment contains ':'.  Approximation from above: the characters of the path are
-    not checked (an invalid path character gives a Path error first, which is converted). *)
+    the first path segment contains ':'.  [uri_try_from_panics] approximates the set of values on
+    which the call panics from above: the characters of the path are not checked (an invalid path
+    character gives a Path error first, which is converted). *)
 Definition is_alpha (c : ascii) : bool :=
   ((65 <=? code c) && (code c <=? 90)) || ((97 <=? code c) && (code c <=? 122)).
 Definition scheme_char (c : ascii) : bool :=
   is_alpha c || is_digit c || Ascii.eqb c "+"%char || Ascii.eqb c "-"%char || Ascii.eqb c "."%char.
+(** RFC 3986 scheme = ALPHA *( ALPHA / DIGIT / "+" / "-" / "." ).  The same test is written out in is_uri:
+      chars.next().map_or(false, |c| c.is_ascii_alphabetic())
+        && chars.all(|c| c.is_ascii_alphanumeric() || c == '+' || c == '-' || c == '.')
+    (serde.rs:1329-1331; a byte >= 128 of a multi-byte character is neither) *)
 Definition scheme_ok (p : bytes) : bool :=
   match p with [] => false | c :: _ => is_alpha c && forallb scheme_char p end.
 Fixpoint take_until (f : ascii -> bool) (s : bytes) : bytes :=
   match s with [] => [] | c :: r => if f c then [] else c :: take_until f r end.
+Definition is_colon (c : ascii) : bool := Ascii.eqb c ":"%char.
 Definition uri_try_from_panics (s : bytes) : bool :=
   let seg := take_until (fun c => Ascii.eqb c "/"%char || Ascii.eqb c "?"%char || Ascii.eqb c "#"%char) s in
-  existsb (fun c => Ascii.eqb c ":"%char) seg
-  && negb (scheme_ok (take_until (fun c => Ascii.eqb c ":"%char) s)).
+  existsb is_colon seg
+  && negb (scheme_ok (take_until is_colon s)).
+
+(** [value.split_once(':')] (serde.rs:1327): the text before the first ':' when there is one *)
+Definition split_scheme (s : bytes) : option bytes :=
+  if existsb is_colon s then Some (take_until is_colon s) else None.
+
+(** the guard: the first two conjuncts of serde.rs:1330-1331; [None => false] serde.rs:1334 *)
+Definition uri_guard (s : bytes) : bool :=
+  match split_scheme s with Some scheme => scheme_ok scheme | None => false end.
+
+Section IsUri.
+  (** what [URI::try_from(value).is_ok()] answers where the call returns: the third-party parser
+      enters as a total function, nothing else is assumed about it *)
+  Variable uri_ok : bytes -> bool.
+
+  (** one call of the external parser *)
+  Definition uri_try_from (s : bytes) : res bool :=
+    if uri_try_from_panics s then Panic else Ok (uri_ok s).
+
+  (** is_uri, serde.rs:1326-1336.  [&&] is lazy: the parser is called (serde.rs:1332) only when
+      the scheme test has passed.  Result and the arguments of the parser calls made. *)
+  Definition is_uri_run (s : bytes) : res bool * list bytes :=
+    if uri_guard s then (uri_try_from s, [s]) else (Ok false, []).
+  Definition is_uri (s : bytes) : res bool := fst (is_uri_run s).
+  Definition is_uri_calls (s : bytes) : list bytes := snd (is_uri_run s).
+
+  (** historical, NOT the current code: before 389bfd0 both call sites read
+      [URI::try_from(value).is_err()] with no guard *)
+  Definition is_uri_before_fix (s : bytes) : res bool := uri_try_from s.
+End IsUri.
